@@ -51,8 +51,9 @@ func verifCopyTask(t Task) Task {
 }
 
 type verifTaskDAO struct {
-	f     *verifFaults
-	tasks map[string]Task
+	f       *verifFaults
+	tasks   map[string]Task
+	onWrite func() // called after every committed write (a possible crash point)
 }
 
 func (d *verifTaskDAO) Get(id string) (Task, error) {
@@ -74,6 +75,9 @@ func (d *verifTaskDAO) Create(t Task) error {
 		return ErrTaskExists
 	}
 	d.tasks[t.ID] = verifCopyTask(t)
+	if d.onWrite != nil {
+		d.onWrite()
+	}
 	return nil
 }
 
@@ -90,6 +94,9 @@ func (d *verifTaskDAO) Replace(t Task) error {
 		d.f.startFailAt = d.f.calls
 	}
 	d.tasks[t.ID] = verifCopyTask(t)
+	if d.onWrite != nil {
+		d.onWrite()
+	}
 	return nil
 }
 
@@ -98,6 +105,9 @@ func (d *verifTaskDAO) Delete(id string) error {
 		return err
 	}
 	delete(d.tasks, id)
+	if d.onWrite != nil {
+		d.onWrite()
+	}
 	return nil
 }
 
@@ -107,14 +117,21 @@ func (d *verifTaskDAO) List(pattern string, offset, limit int) ([]Task, error) {
 func (d *verifTaskDAO) Rebuild() error { return nil }
 
 type verifTemplateDAO struct {
-	f     *verifFaults
-	assoc map[string]bool // templateId + "/" + taskId
+	f       *verifFaults
+	assoc   map[string]bool // templateId + "/" + taskId
+	tpls    map[string]Template
+	onWrite func() // called after every committed write of either DAO (a possible crash point)
 }
 
-func (d *verifTemplateDAO) Get(id string) (Template, error) { return Template{}, ErrNoTemplateExists }
-func (d *verifTemplateDAO) Create(t Template) error         { return nil }
-func (d *verifTemplateDAO) Replace(t Template) error        { return nil }
-func (d *verifTemplateDAO) Delete(id string) error          { return nil }
+func (d *verifTemplateDAO) Get(id string) (Template, error) {
+	if t, ok := d.tpls[id]; ok {
+		return t, nil
+	}
+	return Template{}, ErrNoTemplateExists
+}
+func (d *verifTemplateDAO) Create(t Template) error  { return nil }
+func (d *verifTemplateDAO) Replace(t Template) error { return nil }
+func (d *verifTemplateDAO) Delete(id string) error   { return nil }
 func (d *verifTemplateDAO) List(pattern string, offset, limit int) ([]Template, error) {
 	return nil, errors.New("verif: not used")
 }
@@ -123,6 +140,9 @@ func (d *verifTemplateDAO) AssociateTask(templateId, taskId string) error {
 		return err
 	}
 	d.assoc[templateId+"/"+taskId] = true
+	if d.onWrite != nil {
+		d.onWrite()
+	}
 	return nil
 }
 func (d *verifTemplateDAO) DisassociateTask(templateId, taskId string) error {
@@ -130,6 +150,9 @@ func (d *verifTemplateDAO) DisassociateTask(templateId, taskId string) error {
 		return err
 	}
 	delete(d.assoc, templateId+"/"+taskId)
+	if d.onWrite != nil {
+		d.onWrite()
+	}
 	return nil
 }
 func (d *verifTemplateDAO) ListAssociatedTasks(templateId string) ([]string, error) {
